@@ -258,6 +258,27 @@ def run(tier, seed, rng):
         if got != want or o.get('end') != end:
             failures.append(dict(kind='oracle', sig='recursive-sequence', what=f"a repeated field whose elements are packets of its own class: the tree must parse as {want} and end at {end}; observed {got}, end {o.get('end')}",
                                  classes=tsrc, cls=cls, raw=raw.hex(), offset=0, observed=o))
+    # ---- a count that evaluates BELOW ZERO (signed field, header arithmetic, callable), no when-condition: exactly max(count, 0) = 0
+    # elements, nothing consumed, parsing goes on
+    nsrc = ("class NField(Packet):\n    n = Int(1, signed=True)\n    xs = Int(1).repeated(count=n)\n    t = Int(1)\n"
+            "class NExpr(Packet):\n    n = Int(1)\n    xs = Int(2).repeated(count=n - 3)\n    t = Int(1)\n"
+            "class NCall(Packet):\n    n = Int(1)\n    xs = Int(1).repeated(count=lambda pkt, **k: pkt.n - 2)\n    t = Int(1)\n"
+            "class NFieldL(Packet):\n    __bisturi__ = {'generate_for_pack': False, 'generate_for_unpack': False}\n    n = Int(1, signed=True)\n    xs = Int(1).repeated(count=n)\n    t = Int(1)\n"
+            "class NIn(Packet):\n    h = Int(1)\n    rs = Ref(NExpr).repeated(count=2)\n    z = Int(1)\n")
+    ncases, nwant = [], []
+    for cls, n, k, w in (('NField', 255, -1, 1), ('NField', 253, -3, 1), ('NField', 0, 0, 1), ('NField', 2, 2, 1), ('NFieldL', 254, -2, 1), ('NFieldL', 1, 1, 1),
+                         ('NExpr', 0, -3, 2), ('NExpr', 2, -1, 2), ('NExpr', 3, 0, 2), ('NExpr', 5, 2, 2), ('NCall', 0, -2, 1), ('NCall', 1, -1, 1), ('NCall', 4, 2, 1)):
+        cnt = max(k, 0)
+        elems = [(7 + i) for i in range(cnt)]
+        raw = bytes([n]) + b''.join(e.to_bytes(w, 'big') for e in elems) + b'\x2a' + b'tail'
+        ncases.append(dict(cls=cls, op='roundtrip', raw=raw.hex(), offset=0)); nwant.append((dict(n=(n - 256 if (cls.startswith('NField') and n > 127) else n), xs=elems, t=42), 1 + cnt * w + 1))
+    ncases.append(dict(cls='NIn', op='roundtrip', raw=bytes([9, 1, 5, 2, 6, 8]).hex(), offset=0)); nwant.append((None, 6))
+    nres = run_impl(os.path.join(VERIF, 'harness', 'impl_pkt.py'), dict(header=decl.HEADER_PY, blocks=[dict(name='negcount', src=nsrc)], modname='c08n', cases=ncases))
+    for c, o, (w, end) in zip(ncases, nres['outcomes'], nwant):
+        got = dict(o['ok']['f']) if 'ok' in o else None
+        if 'ok' not in o or o.get('end') != end or (w is not None and got != w):
+            failures.append(dict(kind='oracle', sig='negative-count', what=f"a repeated field with a count below zero yields max(count, 0) elements and consumes nothing: expected {w}, end {end}; observed {str(o)[:250]}",
+                                 classes=nsrc, cls=c['cls'], raw=c['raw'], offset=0, observed=o))
     # ---- counts / conditions / selectors given as EXPRESSIONS, evaluated for a packet on which an operator raises (division by zero,
     # index out of range, unknown key), then again for well-formed packets of the same class in the same process
     xsrc = ("class XChunk(Packet):\n    total = Int(1)\n    size = Int(1)\n    items = Int(1).repeated(count=total // size)\n    t = Data(1)\n"
